@@ -58,6 +58,8 @@ def _talk(self):
         op, arg = step[0], step[1] if len(step) > 1 else None
         if op == 'info':
             labtech.logger.info(arg)
+        elif op == 'infobig':
+            labtech.logger.info(arg + ' ' + 'x' * 8000)      # a record of several kilobytes
         elif op == 'infochild':
             labtech.logger.getChild('sub').info(arg)
         elif op == 'warn':
